@@ -131,6 +131,9 @@ func c07Gen(r *driver.Rand, thorough bool) *driver.Plan {
 	if r.Chance(1, 5) {
 		p.SetX("stderr", 1)
 	}
+	if r.Chance(1, 3) {
+		p.SetX("err_kind", 1+r.Intn(2)) // the failures wrap context.Canceled / DeadlineExceeded
+	}
 	cons := p.Consumers
 	p.Consumers = nil
 	genEnvPaces(r, p, len(p.Inputs), 3)
